@@ -324,3 +324,91 @@ Proof.
   apply lex_loop_consumed in L; [|exact Lb|exact Lc].
   apply offsets_bound in H. lia.
 Qed.
+
+(* ---------------------------------------------------------------- totality: the fuel never runs out *)
+
+Lemma starts2_window_true : forall dl b1 b2 t,
+  starts2 (d_vs dl) (b1 :: b2 :: t) = false -> starts2 (d_bs dl) (b1 :: b2 :: t) = false ->
+  starts2 (d_cs dl) (b1 :: b2 :: t) = false -> is_start_window dl b1 b2 = false.
+Proof.
+  intros dl b1 b2 t H1 H2 H3. unfold is_start_window.
+  change (starts2 (d_vs dl) (b1 :: b2 :: t)) with (bytes_eqb [b1; b2] (d_vs dl)) in H1.
+  change (starts2 (d_bs dl) (b1 :: b2 :: t)) with (bytes_eqb [b1; b2] (d_bs dl)) in H2.
+  change (starts2 (d_cs dl) (b1 :: b2 :: t)) with (bytes_eqb [b1; b2] (d_cs dl)) in H3.
+  apply orb_false_iff; split; [apply orb_false_iff; split|]; assumption.
+Qed.
+
+(* every iteration of the Template state consumes at least one byte, so `S (length src)`
+   iterations always suffice: the model never reports ErrPanic (out of fuel) *)
+Theorem lex_loop_total : forall fuel dl rest,
+  length (d_bs dl) = 2 -> length (d_ce dl) = 2 ->
+  length rest < fuel -> lex_loop fuel dl rest <> RErr ErrPanic.
+Proof.
+  induction fuel as [|f IH]; intros dl rest Lb Lc Hf; [lia|].
+  destruct rest as [|b0 rest0]; [discriminate|].
+  set (rest := b0 :: rest0) in *. cbn [lex_loop]. fold rest.
+  assert (RC : forall l r, length r < f -> res_cons l (lex_loop f dl r) <> RErr ErrPanic).
+  { intros l r Hr. specialize (IH dl r Lb Lc Hr). destruct (lex_loop f dl r); cbn; congruence. }
+  destruct (starts2 (d_vs dl) rest) eqn:SV.
+  { apply starts2_len in SV. destruct (check_ws_start rest) as [ws rest1] eqn:CW.
+    apply check_ws_start_len in CW; [|exact SV].
+    pose proof (scan_inside_consumed (S (length rest1)) (d_ve dl) rest1) as SC.
+    destruct (scan_inside (S (length rest1)) (d_ve dl) rest1) as [toks w pre rest2|toks|]; try discriminate.
+    apply RC. destruct ws; cbn [mlen] in *; lia. }
+  destruct (starts2 (d_bs dl) rest) eqn:SB.
+  { apply starts2_len in SB. destruct (check_ws_start rest) as [ws rest1] eqn:CW.
+    apply check_ws_start_len in CW; [|exact SB].
+    destruct (skip_tag rest1 name_raw (d_be dl)) as [[off w]|].
+    - destruct (raw_loop (S (length rest1)) dl rest1 off off w) as [[[body we] adv]|] eqn:RL; [|discriminate].
+      apply RC. rewrite skipn_length. destruct ws; cbn [mlen] in *; lia.
+    - pose proof (scan_inside_consumed (S (length rest1)) (d_be dl) rest1) as SC.
+      destruct (scan_inside (S (length rest1)) (d_be dl) rest1) as [toks w pre rest2|toks|]; try discriminate.
+      apply RC. destruct ws; cbn [mlen] in *; lia. }
+  destruct (starts2 (d_cs dl) rest) eqn:SC.
+  { apply starts2_len in SC. destruct (check_ws_start rest) as [ws rest1] eqn:CW.
+    apply check_ws_start_len in CW; [|exact SC].
+    destruct (memstr rest1 (d_ce dl)) as [ep|] eqn:M; [|discriminate].
+    apply RC. rewrite skipn_length. destruct ws; cbn [mlen] in *; lia. }
+  destruct (find_start_marker dl rest) as [st|] eqn:F; [|discriminate].
+  apply RC. rewrite skipn_length.
+  assert (LR : 1 <= length rest) by (unfold rest; cbn [length]; lia).
+  enough (1 <= st) by lia.
+  destruct st as [|st]; [|lia]. exfalso.
+  subst rest. destruct rest0 as [|b1 t]; [discriminate|]. rewrite fsm_cons2 in F.
+  rewrite (starts2_window_true dl b0 b1 t SV SB SC) in F.
+  destruct (find_start_marker dl (b1 :: t)); discriminate.
+Qed.
+
+Theorem lex_ptoks_total : forall dl src, validate dl = ROk tt -> lex_ptoks dl src <> RErr ErrPanic.
+Proof.
+  intros dl src V. apply Proofs.WsFilterProofs.validate_spec_lemma in V.
+  destruct V as [Lb [_ [_ [_ [_ [Lc _]]]]]].
+  unfold lex_ptoks. apply lex_loop_total; [exact Lb|exact Lc|lia].
+Qed.
+
+(* the nested scanners never run out of their own fuel either: with more than `length s`
+   iterations the result does not depend on the amount *)
+Lemma scan_inside_fuel : forall f1 f2 e s, length s < f1 -> length s < f2 ->
+  scan_inside f1 e s = scan_inside f2 e s.
+Proof.
+  induction f1 as [|f1 IH]; intros f2 e s H1 H2; [lia|]. destruct f2 as [|f2]; [lia|].
+  cbn [scan_inside]. pose proof (skip_ascii_ws_len s) as SL.
+  destruct (skip_ascii_ws s) as [|b0 t0]; [reflexivity|].
+  destruct ((b0 =? dash)%N && starts2 e t0); [reflexivity|].
+  destruct (starts2 e (b0 :: t0)); [reflexivity|].
+  destruct (inner_token (b0 :: t0)) as [[t len]|] eqn:T; [|reflexivity].
+  apply inner_token_len in T.
+  rewrite (IH f2 e (skipn len (b0 :: t0))); [reflexivity| |]; rewrite skipn_length; lia.
+Qed.
+
+Lemma raw_loop_fuel : forall f1 f2 dl rest bs off w, length (d_bs dl) = 2 ->
+  length rest - off < f1 -> length rest - off < f2 -> off <= length rest ->
+  raw_loop f1 dl rest bs off w = raw_loop f2 dl rest bs off w.
+Proof.
+  induction f1 as [|f1 IH]; intros f2 dl rest bs off w Lb H1 H2 Ho; [lia|]. destruct f2 as [|f2]; [lia|].
+  cbn [raw_loop].
+  destruct (memstr (skipn off rest) (d_bs dl)) as [block|] eqn:M; [|reflexivity].
+  apply memstr_bound in M; [|exact Lb]. rewrite skipn_length in M.
+  destruct (skip_tag (skipn (off + block + 2) rest) name_endraw (d_be dl)) as [[en we]|]; [reflexivity|].
+  apply IH; try exact Lb; lia.
+Qed.
